@@ -280,9 +280,19 @@ func (b *BloomSearchEngine) Stop(ctx context.Context) error {
 	// expires, in-flight flush store calls, done-channel delivery, and flush
 	// enqueueing all abort, which also unwinds any IngestRows caller holding
 	// the read lock on a full ingest buffer — so Stop can always honor its
-	// deadline. The AfterFunc is dropped on a graceful finish, leaving
-	// flushCtx live.
-	stopAfter := context.AfterFunc(ctx, b.flushCancel)
+	// deadline. The watcher is dropped on a graceful finish, leaving flushCtx
+	// live. It is a goroutine of Stop's own rather than context.AfterFunc: a
+	// context may run AfterFunc callbacks late (or on a goroutine that has not
+	// been scheduled yet), and the abort must not depend on that.
+	stopWatch := make(chan struct{})
+	stopAfter := func() { close(stopWatch) }
+	go func() {
+		select {
+		case <-ctx.Done():
+			b.flushCancel()
+		case <-stopWatch:
+		}
+	}()
 	verifPoint("stop.armed", 0, 0, nil)
 
 	b.stateMu.Lock()
@@ -319,7 +329,10 @@ func (b *BloomSearchEngine) Stop(ctx context.Context) error {
 		verifPoint("stop.ret_nil", 0, 0, nil)
 		return nil
 	case <-ctx.Done():
-		// Timeout occurred
+		// Timeout occurred. Cancel flush work before returning, so that no
+		// queued flush can start store work after Stop has reported the
+		// deadline (the watcher above may not have run yet).
+		b.flushCancel()
 		verifPoint("stop.ret_deadline", 0, 0, nil)
 		return fmt.Errorf("shutdown timeout exceeded: %w", ctx.Err())
 	}
